@@ -415,6 +415,31 @@ def rule_loops(s, loops):
     out.append(s[pos:])
     return ''.join(out), fired, counts
 
+def rule_rmw_extra(s, extra):
+    """k-th __VERIF_RMW_EXTRA token inside function f -> ', <extra assigns>' (meta rmw_extra {"f#k": "a, b"}) or nothing"""
+    if '__VERIF_RMW_EXTRA' not in s:
+        return s, 0
+    toks = tokenize(s)
+    funcs = find_functions(toks)
+    edits = {}
+    used = set()
+    for name, ds, bs, be in funcs:
+        k = 0
+        for i in range(bs, be + 1):
+            if toks[i][0] == '__VERIF_RMW_EXTRA':
+                key = '%s#%d' % (name, k)
+                if key in extra:
+                    edits[toks[i][1]] = ', ' + extra[key]; used.add(key)
+                k += 1
+    for key in extra:
+        if key not in used:
+            raise ExtractionError('rmw_extra %s: no such rmw loop in the sliced text' % key)
+    out = []; pos = 0
+    for m in re.finditer(r'__VERIF_RMW_EXTRA', s):
+        out.append(s[pos:m.start()]); out.append(edits.get(m.start(), '')); pos = m.end()
+    out.append(s[pos:])
+    return ''.join(out), len(used)
+
 def extract(meta, harness_path, workdir, native=False):
     """returns dict(text_path, fired, kept, names, ...)"""
     os.makedirs(workdir, exist_ok=True)
@@ -443,6 +468,7 @@ def extract(meta, harness_path, workdir, native=False):
     sliced, kept, hnames, overridden = slice_text(src, roots, stops)
     fired = {}
     sliced, names = rule_named(sliced)
+    sliced, fired['R-rmwx'] = rule_rmw_extra(sliced, meta.get('rmw_extra', {}))
     sliced, fired['R-trap'] = rule_trap(sliced)
     sliced, fired['R-ovl'] = rule_ovl(sliced)
     sliced, fired['R-apply'] = rule_apply(sliced)
